@@ -61,6 +61,11 @@ def gen_params(rng, arity, generic):
 def normalize(trait):
     """make every method satisfy the side conditions of the grammar (used after generation and after shrinking)"""
     for m in trait["methods"]:
+        if "p" in trait.get("layout", []) and m["recv"] in ("box", "tref", "tmut"):
+            # a trait with a provided method gets a helper impl, whose required methods convert the receiver back: there is no such
+            # conversion for Box<Self> and for the typed spellings `self: &Self` / `self: &mut Self` (compile error E0277 on the
+            # unchanged tree: outside the grammar)
+            m["recv"] = {"box": "arc", "tref": "ref", "tmut": "mut"}[m["recv"]]
         if trait["async_trait"]:
             if m["flav"] in ("async", "rpit"):
                 m["flav"] = "async_trait"
@@ -141,7 +146,9 @@ def gen_trait(rng, max_arity):
     lay = ["m"] * len(t["methods"])
     if rng.random() < 0.35:
         for _ in range(rng.randint(1, 2)):
-            lay.insert(rng.randint(0, len(lay)), "s")
+            # "s": a receiver-less provided function (skipped by the macro); "p": a provided method WITH a receiver (mocked like any
+            # other, not exercised here) - both are fn items of the trait and occupy a slot of unmock_with / of the flattened api list
+            lay.insert(rng.randint(0, len(lay)), rng.choice(["s", "s", "p"]))
     t["layout"] = lay
     return normalize(t)
 
@@ -151,7 +158,7 @@ def factors(trait, m):
     f = {"recv": m["recv"], "arity": len(cs), "flav": m["flav"], "ret": m["ret"], "resp": m["resp"], "tg": bool(trait["generic"]),
          "api": trait["api"], "imp": "mutlt" in cs, "mut": any(c in MUT for c in cs), "first": cs[0] if cs else "-",
          "last": cs[-1] if cs else "-", "nmeth": len(trait["methods"]), "gen": m["T"] is not None or "impl" in cs,
-         "um": (m.get("um") or {}).get("form", "-"), "skips": "s" in trait.get("layout", [])}
+         "um": (m.get("um") or {}).get("form", "-"), "skips": "s" in trait.get("layout", []), "provided": "p" in trait.get("layout", [])}
     return f
 
 
@@ -202,8 +209,10 @@ def coq_case(trait, mi):
                 "true" if trait["generic"] else "false", "ApiModule" if trait["api"] == "module" else "ApiFlattened"))
     calls = "; ".join("(%s, [%s])" % (u, "; ".join(str(i) for i in ids_of(m, c))) for u, c in script_of(m))
     if m["resp"] == "unmock":
-        resp = "(UseUnmock [%s] [%s] %d)" % ("; ".join("true" if x == "m" else "false" for x in trait["layout"]),
-                                            "; ".join(coq_uentry(trait, i) for i in range(len(trait["layout"]))), mi)
+        pos = [i for i in range(len(trait["layout"])) if item_method(trait, i) == mi][0]
+        kth = sum(1 for x in trait["layout"][:pos] if x in ("m", "p"))
+        resp = "(UseUnmock [%s] [%s] %d)" % ("; ".join("true" if x in ("m", "p") else "false" for x in trait["layout"]),
+                                            "; ".join(coq_uentry(trait, i) for i in range(len(trait["layout"]))), kth)
     else:
         resp = "UseReturn" if m["resp"] == "returns" else "UseAnswer"
     return "{| k_shape := %s; k_resp := %s; k_calls := [%s] |}" % (shape, resp, calls)
@@ -331,6 +340,10 @@ def rust_trait(ti, trait):
     if uses_assoc:
         out.append("    type A;")
     for i, kind in enumerate(trait["layout"]):
+        if kind == "p":
+            # a provided method with a receiver: mockable, declared BEFORE or between the methods under test
+            out.append(f"    fn t{ti}_p{i}(&self) -> u32 {{ {i} }}")
+            continue
         if kind != "m":
             # receiver-less provided function: not mockable, skipped by the macro, but it is one of the trait's fn items
             out.append(f"    fn t{ti}_s{i}() -> u32 where Self: Sized {{ {i} }}")
